@@ -83,22 +83,40 @@ example :
 
 `Op` (`Proofs/QueryGenRun.lean`) are the operations of one instance that touch its question history — any browser's
 `generate_service_query`, any lookup's `_generate_request_query`, `async_response` on an assembled query, the 10 s clean-up tick — with
-arbitrary caches, clocks, types and names per operation.  `runOps [] ops` is the history after the run together with the run's
+arbitrary caches, clocks, types and names per operation.  The list is the order of **execution**; the clocks are arbitrary, but
+`C13.Chrono` (hypothesis of `C13_suppress_any_sighting_partial` only) additionally demands that execution order is clock order, which a
+heard truncated query that the listener deferred violates (see `C13.Chrono`, finding R3-C13-a).  `runOps [] ops` is the history after the run together with the run's
 **sightings**: every QM question the instance transmitted and every QM question it heard that it can answer, each with its time and
 known-answer list.  The sentence of the property speaks about these sightings, not about the dict. -/
 
-/-- the run is chronological and lies in the past of `now` -/
+/-- the clean-up ticks of the run lie in the past of `now` (the only thing `C13_run_suppress_iff` needs of the run's clocks) -/
+def C13.TicksPast (ops : List Op) (now : Int) : Prop := ∀ t, Op.tick t ∈ ops → t ≤ now
+
+/-- the operations **execute in the order of the times they carry**, all in the past of `now`.
+**This is not the property's own quantifier**: it is a restriction on runs, and the library produces runs outside it.  `Op.hear pkts T`
+carries the arrival time `T` of the query's last packet; a truncated (TC) query whose train is incomplete is held back by the listener
+(`_listener.py` `handle_query_or_defer`) and *executes* at `T + 400..500`.  A run in which a browser or lookup asks between `T` and that
+instant has the `hear` op after the ask in execution order although it carries an earlier time — not `Chrono`.  On such runs the code sends
+a question the sentence forbids: finding R3-C13-a (`C13_heard_at_arrival_refuted`).  `Chrono` is a hypothesis of
+`C13_suppress_any_sighting_partial` only; `C13_run_suppress_iff` holds for every execution order (`TicksPast`). -/
 def C13.Chrono (ops : List Op) (now : Int) : Prop := ops.Pairwise (fun a b => a.time ≤ b.time) ∧ ∀ op ∈ ops, op.time ≤ now
 
-/-- **What the code decides, in terms of the run.**  After any chronological run from the empty history, a browser question asked at `now`
-is omitted iff it is QM and the **latest** sighting of that question in the run — asked or heard — is at most 999 ms old with a
-known-answer list of which every record is among ours.  The clean-up ticks of the run play no role; neither does which browser or lookup
-asked.  (Same for a lookup question: `C13_run_lookup_suppress_iff`.) -/
-theorem C13_run_suppress_iff (ops : List Op) (now : Int) (hc : C13.Chrono ops now) (cache : List Rec) (qu : Bool) (ty : String) :
+theorem C13.Chrono.ticksPast {ops : List Op} {now : Int} (h : C13.Chrono ops now) : C13.TicksPast ops now :=
+  fun t ht => h.2 (.tick t) ht
+
+/-- **What the code decides, in terms of the run.**  After any run from the empty history — `ops` in the order in which the operations
+**executed**, whatever times they carry, the clean-up ticks in the past of `now` — a browser question asked at `now` is omitted iff it is
+QM and the sighting of that question that was **written last** — asked or heard — is stamped at most 999 ms ago with a known-answer list of
+which every record is among ours.  A heard query that the listener deferred is an `Op.hear` at the place where it executed, stamped with
+its arrival time; before that place it is not a sighting for the code, although the instance has heard it (finding R3-C13-a).
+The clean-up ticks play no role; neither does which browser or lookup asked.  (Lookup question: `C13_run_lookup_suppress_iff`.)
+`runOps` is a proof-level composition: the driver has no run command — the harness replays a run operation by operation
+(`c13svc`, `c13req`, `c13hearm`, `c13expire`, each fed the implementation's history before the step), which is `Op.run` step by step. -/
+theorem C13_run_suppress_iff (ops : List Op) (now : Int) (hc : C13.TicksPast ops now) (cache : List Rec) (qu : Bool) (ty : String) :
     (askType lower cache (runOps lower [] ops).1 now qu ty).1 = none ↔
       qu = false ∧ ∃ s, lastSighting lower (runOps lower [] ops).2 { name := ty, type := 12, class_ := 1, unique := qu } = some s ∧
         now - s.time ≤ 999 ∧ Covers lower s (knownAnswers lower cache ty 12 1 now) := by
-  have hf := runOps_futEqAt lower now ops [] [] (by simp [History.Keyed]) hc.2 (fun _ _ => rfl)
+  have hf := runOps_futEqAt lower now ops [] [] (by simp [History.Keyed]) hc (fun _ _ => rfl)
   rw [askType_eq]
   cases qu with
   | true => simp
@@ -115,12 +133,12 @@ theorem C13_run_suppress_iff (ops : List Op) (now : Int) (hc : C13.Chrono ops no
       · intro hh; cases hh
       · intro hex; exact absurd ((suppresses_seeAll lower _ _ now _).2 hex) hs
 
-theorem C13_run_lookup_suppress_iff (ops : List Op) (now : Int) (hc : C13.Chrono ops now) (cache : List Rec) (qu : Bool)
+theorem C13_run_lookup_suppress_iff (ops : List Op) (now : Int) (hc : C13.TicksPast ops now) (cache : List Rec) (qu : Bool)
     (name : String) (type cls : Nat) :
     (addQuestion lower cache (runOps lower [] ops).1 now qu name type cls false).1 = none ↔
       qu = false ∧ ∃ s, lastSighting lower (runOps lower [] ops).2 { name, type, class_ := cls, unique := qu } = some s ∧
         now - s.time ≤ 999 ∧ Covers lower s (knownAnswers lower cache name type cls now) := by
-  have hf := runOps_futEqAt lower now ops [] [] (by simp [History.Keyed]) hc.2 (fun _ _ => rfl)
+  have hf := runOps_futEqAt lower now ops [] [] (by simp [History.Keyed]) hc (fun _ _ => rfl)
   rw [addQuestion_eq]
   cases qu with
   | true => simp
@@ -161,7 +179,7 @@ theorem C13_suppressed_only_if_sighted (ops : List Op) (now : Int) (hc : C13.Chr
     (h : (askType lower cache (runOps lower [] ops).1 now qu ty).1 = none) :
     qu = false ∧ C13.SomeSightingCovers lower (runOps lower [] ops).2 { name := ty, type := 12, class_ := 1, unique := qu } now
       (knownAnswers lower cache ty 12 1 now) := by
-  obtain ⟨hq, s, hs, hw, hcov⟩ := (C13_run_suppress_iff lower ops now hc cache qu ty).1 h
+  obtain ⟨hq, s, hs, hw, hcov⟩ := (C13_run_suppress_iff lower ops now hc.ticksPast cache qu ty).1 h
   obtain ⟨hm, hk⟩ := lastSighting_some lower hs
   exact ⟨hq, s, hm, hk, hw, hcov⟩
 
@@ -178,7 +196,7 @@ theorem C13_suppress_any_sighting_partial (ops : List Op) (now : Int) (hc : C13.
   constructor
   · intro h; exact (C13_suppressed_only_if_sighted lower ops now hc cache false ty h).2
   · intro hsome
-    rw [C13_run_suppress_iff lower ops now hc]
+    rw [C13_run_suppress_iff lower ops now hc.ticksPast]
     refine ⟨rfl, ?_⟩
     have hsome' := hsome
     obtain ⟨s0, hm0, hk0, hw0, -⟩ := hsome'
@@ -225,6 +243,98 @@ theorem C13_suppress_any_sighting_refuted : ¬ C13.suppress_any_sighting_full id
 without the heard query) -/
 example : (askType id [exInst0] (runOps id [] exLastWorse).1 500 false "_x._tcp.local.").1.isSome = true ∧
     (askType id [exInst0] (runOps id [] (exLastWorse.take 1)).1 500 false "_x._tcp.local.").1.isNone = true := by decide
+
+/-! ## heard on arrival vs. written when processed (finding R3-C13-a) -/
+
+/-- **The sentence, for a heard query, from the moment it is heard**: whatever the history holds (`h`: the state at our ask), if a query
+`pkts` in which some packet asks the PTR question of `ty` QM, answerable by this host, **arrived** at `T` at most 999 ms before our ask at
+`now`, and we list ourselves every record of its non-probe packets, our own QM question is not sent. -/
+def C13.heard_at_arrival_full : Prop :=
+  ∀ (cache : List Rec) (h : History) (pkts : List HeardPacket) (T now : Int) (ty : String),
+    (∃ p ∈ pkts, ∃ qc ∈ p.questions, qc.1.beq lower { name := ty, type := 12, class_ := 1, unique := false } = true ∧ qc.2 = true ∧ qc.1.unique = false) →
+    T ≤ now → now - T ≤ 999 →
+    (∀ p ∈ pkts, p.probe = false → ∀ r ∈ p.records, ∃ k ∈ knownAnswers lower cache ty 12 1 now, r.beq lower k = true) →
+    (askType lower cache h now false ty).1 = none
+
+/-- **… holds once the query has been processed (partial: finding R3-C13-a).**  The hypothesis `hproc` — the history at our ask is the
+one `async_response` left (`hearQuery h0 pkts T`) — is exactly what fails inside the listener's deferral window: a truncated (TC) query
+whose train is incomplete is heard at `T` but processed at `T + 400..500`; an ask in between sees `h0`. -/
+theorem C13_heard_at_arrival_partial (cache : List Rec) (h h0 : History) (pkts : List HeardPacket) (T now : Int) (ty : String)
+    (hproc : h = hearQuery lower h0 pkts T)
+    (hheard : ∃ p ∈ pkts, ∃ qc ∈ p.questions,
+      qc.1.beq lower { name := ty, type := 12, class_ := 1, unique := false } = true ∧ qc.2 = true ∧ qc.1.unique = false)
+    (hgap : now - T ≤ 999)
+    (hcov : ∀ p ∈ pkts, p.probe = false → ∀ r ∈ p.records, ∃ k ∈ knownAnswers lower cache ty 12 1 now, r.beq lower k = true) :
+    (askType lower cache h now false ty).1 = none := by
+  rw [hproc]
+  exact C13_heard_query_suppressed lower cache h0 pkts T now ty hheard hgap hcov
+
+/-- **The stamp of a heard question is its arrival time** (translated leaves on `now = msg.now` and on the argument of
+`add_question_at_time` in `async_response` — review r3 m7): whenever the assembled query is processed, the `now` handed to `hearQuery` is
+`msgs[-1].now`.  So a deferred truncated query, processed 400–500 ms after it arrived, stops suppressing 999 ms after its **arrival**. -/
+theorem C13_heard_stamp (msgNow : Int) : Gen.BrowserQuery.heard_stamp_arg (Gen.BrowserQuery.heard_stamp msgNow) = msgNow :=
+  GenFacts.QueryMsg.heard_stamp_eq msgNow
+
+/-- a one-packet query asking the PTR question of `_x._tcp.local.` QM, answerable by this host, with no known answers -/
+def exHeardPkt : HeardPacket :=
+  { probe := false, questions := [({ name := "_x._tcp.local.", type := 12, class_ := 1, unique := false }, true)], records := [] }
+
+/-- **false today (finding R3-C13-a)**: with the history still empty — the heard TC packet sits in the listener's deferral queue — our
+own question 1 ms after hearing a query with an empty known-answer list is sent. -/
+theorem C13_heard_at_arrival_refuted : ¬ C13.heard_at_arrival_full id := by
+  intro h
+  have := h [] [] [exHeardPkt] 1000 1001 "_x._tcp.local."
+    ⟨exHeardPkt, List.mem_singleton.2 rfl, ({ name := "_x._tcp.local.", type := 12, class_ := 1, unique := false }, true), List.mem_singleton.2 rfl,
+      by decide, rfl, rfl⟩
+    (by decide) (by decide)
+    (by intro p hp _ r hr; rw [List.mem_singleton.1 hp] at hr; exact absurd hr (by simp [exHeardPkt]))
+  have h2 : (askType id [] [] 1001 false "_x._tcp.local.").1.isSome = true := by decide
+  rw [this] at h2
+  cases h2
+
+/-! ## a duplicate lookup question is not transmitted (the lookup analogue of `C13_repeat_suppressed`) -/
+
+/-- **A lookup question asked QM is not asked again within 999 ms with a covering list.**  After `_add_question_with_known_answers`
+emitted the QM question `(name, type, cls)` at `now` (whatever the history held), the same question at `now'` at most 999 ms later, on a
+cache whose known answers cover the ones listed at `now`, is omitted — by the history, or because an answer is now held (`skip`).
+This is what keeps the early third request of finding D13 (generated 220–320 ms after the second — `C13_lookup_spacing_refuted`) **silent
+when it is a duplicate**: every question the second request transmitted is dropped from the third unless its known-answer list shrank;
+only new questions (asked for the first time) or shrunken lists go out — D13's class.
+Not composed here: the four questions of one request are threaded through one history; they have four different types, hence four
+different keys, so the entry of one survives the other three writes (`get_add_ne`) — stated per question only. -/
+theorem C13_lookup_repeat_suppressed (cache cache' : List Rec) (h : History) (now now' : Int) (name : String) (type cls : Nat) (skip skip' : Bool)
+    (hasked : (addQuestion lower cache h now false name type cls skip).1 ≠ none) (hgap : now' - now ≤ 999)
+    (hcov : ∀ r ∈ knownAnswers lower cache name type cls now, ∃ k ∈ knownAnswers lower cache' name type cls now', r.beq lower k = true) :
+    (addQuestion lower cache' (addQuestion lower cache h now false name type cls skip).2 now' false name type cls skip').1 = none := by
+  have hrec : (addQuestion lower cache h now false name type cls skip).2.get lower { name, type, class_ := cls, unique := false } =
+      some { q := { name, type, class_ := cls, unique := false }, time := now, known := knownAnswers lower cache name type cls now } := by
+    rw [addQuestion_eq] at hasked ⊢
+    split at hasked
+    · exact absurd rfl hasked
+    · rename_i h1
+      rw [if_neg h1]
+      simp only [Bool.false_eq_true, if_false] at hasked ⊢
+      split at hasked
+      · exact absurd rfl hasked
+      · rename_i h2
+        rw [if_neg h2]
+        exact get_add lower h _ now _
+  rw [addQuestion_eq]
+  split
+  · rfl
+  · simp only [Bool.false_eq_true, if_false]
+    have hs : (addQuestion lower cache h now false name type cls skip).2.suppresses lower { name, type, class_ := cls, unique := false } now'
+        (knownAnswers lower cache' name type cls now') = true :=
+      (suppresses_iff lower _ _ now' _).2 ⟨_, hrec, hgap, hcov⟩
+    rw [if_pos hs]
+
+/-- non-vacuity: the A question asked at 1000 with one known answer; at 1246 (the early third request) with the same cache it is omitted,
+with an empty cache (the list shrank) it is asked again -/
+example :
+    let a : Rec := { name := "h.local.", type := 1, class_ := 1, unique := true, ttl := 4500, created := 0, rdata := .addr [10, 0, 0, 1] none }
+    (addQuestion id [a] (addQuestion id [a] [] 1000 false "h.local." 1 1 false).2 1246 false "h.local." 1 1 false).1.isNone = true ∧
+    (addQuestion id [] (addQuestion id [a] [] 1000 false "h.local." 1 1 false).2 1246 false "h.local." 1 1 false).1.isSome = true := by
+  decide
 
 /-! ## what one `generate_service_query` / `_generate_request_query` call emits -/
 
@@ -302,7 +412,10 @@ def C13.qtypeOf (n : Nat) : Option Bool := if n = 0 then none else some (n == 1)
 /-- **What a browser hands to `generate_service_query`** (`QueryScheduler.async_send_ready_queries`, translated leaves — review E6): its
 scheduler pass's own clock, and a question type that makes the query **QU exactly on the first request of a browser with no forced
 type**; a forced type is used for every request; an unforced browser's later requests are QM on a multicast browser (`quOf true none`).
-Which request is "first" (`_startup_queries_sent == 0`) and when requests are made is C10's (`C10_startup_four`). -/
+Which request is "first" (`_startup_queries_sent == 0`) and when requests are made is C10's (`C10_startup_four`).
+**Not tied here**: the `multicast` flag handed over as the fourth argument (`self._multicast`, computed from the browser's address in
+`_ServiceBrowserBase.__init__`) — `quOf true` assumes a multicast browser; a wrong flag is caught by C10's harness (`C10:startup-qu`,
+`C10:qu-bit-wire`, review r3 m1), not by this check, which runs no browser. -/
 theorem C13_browser_call_site (now : Int) (first : Bool) (forced : Nat) :
     Gen.BrowserQuery.query_time now = now ∧
     quOf true (C13.qtypeOf (Gen.BrowserQuery.query_type_arg (Gen.BrowserQuery.question_type (forced == 0) first 1 forced))) =
@@ -363,7 +476,9 @@ theorem C13_split_on_wire_partial (m : Encode.Msg) (hq : C13.QueryMsg m) (hwf : 
   rw [hflags.2] at hqs hans
   exact ⟨msgs', e, ne, (htc hquery).1, (htc hquery).2, hqs, hans, C14_sizes m hwf hfit pks h⟩
 
-/-- non-vacuity: C14's two-datagram query `exSplit` has the flags of a lookup query, and its packets are a TC train -/
+/-- non-vacuity of the conclusion only: C14's two-datagram query `exSplit` has the flags of a lookup query, and its packets are a TC
+train.  It is **not** shown to be a `C13.QueryMsg` (a `lookupMsg`/`bucketMsg` built from a cache): only the flags are compared; that real
+lookup and browser queries split this way is what the `req`/`loop`/`svc` streams observe on the decoded packets. -/
 example : exSplit.flags = Gen.flagsQrQuery ∧
     (packets exSplit).toOption.map (fun pks => pks.map (fun p => (Strict.decode p).map (fun w => (w.flags &&& 512, w.questions.length, w.answers.length)))) =
       some [some (512, 1, 1), some (0, 0, 1)] := by
@@ -372,5 +487,46 @@ example : exSplit.flags = Gen.flagsQrQuery ∧
   · decide +kernel
 
 end split
+
+/-! ## Tie: the questions of a browser query / a lookup query, generated over the *translated* history
+
+`serviceQuestionsG` / `serviceQueryG` / `requestQueryG` (`GenFacts/FnHistoryRun.lean`) are `generate_service_query`'s loop and
+`_generate_request_query` with the generated `QuestionHistory` and the translated `suppresses` / `add_question_at_time`.  The twins
+below restate `C13_service_query` and `C13_request_query` for them, on any generated history `s` that holds a model history `h` (`Sim`).
+The query generators themselves (the loop over the types, the four lookup questions, the known-answer selection) remain hand-written
+models; the history they consult and update is the translated code. -/
+section Tie
+open Zc.Py Zc.GenFn.History Zc.GenFacts.FnHistory Zc.GenFacts.FnHistoryRun
+
+theorem C13_service_query_source {s : QuestionHistory} {h : History} (hs : Sim lower s h) (cache : List Rec) (now : Int) (qu : Bool)
+    (tys : List String) :
+    (∀ x ∈ (serviceQuestionsG lower cache now qu tys s).1, ∃ ty ∈ tys,
+        x.q = { name := ty, type := 12, class_ := 1, unique := qu } ∧ x.known = knownAnswers lower cache ty 12 1 now ∧
+        (now ≠ 0 → x.wire = x.known.map (fun r => (r, ((r.created + 1000 * r.ttl - now) / 1000).toNat)))) ∧
+    DistinctKeys lower (serviceQuestionsG lower cache now qu tys s).1 ∧
+    (∀ o ∈ (serviceQueryG lower cache now qu tys s).1, ∃ y ∈ (serviceQuestionsG lower cache now qu tys s).1, y.q.beq lower o.q = true) ∧
+    Sim lower (serviceQuestionsG lower cache now qu tys s).2 (h.seeAll lower (sightingsOf now (serviceQueryG lower cache now qu tys s).1)) := by
+  obtain ⟨e1, e2⟩ := serviceQuestionsG_sim lower cache now qu tys hs
+  obtain ⟨e3, _⟩ := serviceQueryG_sim lower cache now qu tys hs
+  obtain ⟨h1, h2, h3, h4⟩ := C13_service_query lower cache h now qu tys
+  rw [e1, e3]
+  rw [h4] at e2
+  exact ⟨h1, h2, h3, e2⟩
+
+theorem C13_request_query_source {s : QuestionHistory} {h : History} (hs : Sim lower s h) (cache : List Rec) (now : Int) (qu : Bool)
+    (name server : String) :
+    (∀ o ∈ (requestQueryG lower cache s now qu name server).1,
+        ((o.q.name = name ∧ (o.q.type = 33 ∨ o.q.type = 16)) ∨ (o.q.name = server ∧ (o.q.type = 1 ∨ o.q.type = 28))) ∧
+        o.q.class_ = 1 ∧ o.q.unique = qu ∧ o.known = knownAnswers lower cache o.q.name o.q.type 1 now ∧
+        (now ≠ 0 → o.wire = o.known.map (fun r => (r, ((r.created + 1000 * r.ttl - now) / 1000).toNat)))) ∧
+    Sim lower (requestQueryG lower cache s now qu name server).2
+      (h.seeAll lower (sightingsOf now (requestQueryG lower cache s now qu name server).1)) := by
+  obtain ⟨e1, e2⟩ := requestQueryG_sim lower hs cache now qu name server
+  obtain ⟨h1, h2⟩ := C13_request_query lower cache h now qu name server
+  rw [e1]
+  rw [h2] at e2
+  exact ⟨h1, e2⟩
+
+end Tie
 
 end Zc
